@@ -16,6 +16,8 @@ HIER_BOUNDS = {'libraries': '2-4 (Verilog: hdi_primitives + work)', 'leaf_defini
                'edif_properties': '0-3 per instance: string / integer / boolean, names that need a rename', 'verilog_data': 'instance parameters and attributes, module parameters and attributes, wire attributes, 0-2 assigns per module',
                'edif_same_cell_name_in_two_libraries': '20% of the designs (half of them the top cell, 60% of those in an unreferenced library of its own, 30% as a case variant)',
                'edif_source_styles': 'comments with 0-3 strings at every place the reader accepts one (each must come back as a tuple under EDIF.comments of its element), status absent / empty / several written / author / program, optional designator / property / status on cell, view, interface, port, net, ports without direction (read as UNDEFINED), design anywhere after its library with libraries / comments after it, comment inside keywordMap',
+               'verilog_attribute_groups': 'attributes of one module / instance / wire cut into 2-3 separate (* *) groups (all must be merged), an earlier group giving one name another value (the later wins), groups before body port declarations',
+               'verilog_header_aliases_onto_vector_nets': 'about 27% of the C04 cases: port pins on bits of its own net permuted / offset / sub-range / mixed with other nets, on a differently named vector net (contiguous or permuted, base 0/2/5), two ports on one net; a variant is used only when the reader returns it as the text says (the support page limits aliases)',
                'verilog_permuted_or_repeated_inner_bits': '25% of the designs that instantiate a port of >= 4 bits: that port fed from one cable, end bits in slice position'}
 FLAT_BOUNDS = {'top_ports': '1-4 of width 1-3', 'black_box_models': '1-3 with 1-4 ports of width 1-3, 70% declared', 'nets': '3-8 scalar + 0-2 buses of width 2-4 + port nets',
                'instances': '2-7 (.subckt 5 : .gate 1 : .names 3 : .latch 2), 70% with .cname, 0-2 .attr, 0-2 .param', 'conn_statements': '0-2', 'wide_names': '12% of the designs get one extra .names with 11-13 inputs', 'names': '30% from an adversarial alphabet ($ . : ~ ^ \\\\)',
